@@ -94,6 +94,11 @@ CONTEXTS = {
     "float-left-plus": "(j.q() + {f})",
     "float-left-minus": "(j.q() - {f})",
     "float-right-times": "({f} * j.q())",
+    # the argument is a value that only exists inside a block the translator has to open (First()): the call and the
+    # arithmetic around it have to be emitted inside that block, at event level
+    "first-arg": None,
+    "first-arg-plus-left": None,
+    "first-arg-times-left": None,
     "arg-arith": None,     # function applied to an arithmetic expression
     "int-args": None,      # every argument an int-typed expression: the result is still the function's (floating) value
     "int-args-plus": None,
@@ -185,6 +190,13 @@ def main(tier="quick"):
                     else:
                         q = f"ds.Select(lambda e: e.{coll}('A').Select(lambda j: {call}).Sum())"
                     cases.append(Case(pid, backend, q, md, {"function": n, "context": ctx}))
+                    pid += 1
+                    continue
+                if ctx.startswith("first-arg"):
+                    fj = f"e.{coll}('A').First()"
+                    call = f.replace("j.", fj + ".")
+                    expr = {"first-arg": call, "first-arg-plus-left": f"(1 + {call})", "first-arg-times-left": f"(2 * {call})"}[ctx]
+                    cases.append(Case(pid, backend, f"ds.Select(lambda e: {expr})", md, {"function": n, "context": ctx}))
                     pid += 1
                     continue
                 if ctx == "arg-arith":
